@@ -120,6 +120,7 @@ func c16(e *Env) {
 	// ---- R5
 	e.spawnRules("R5", "R5")
 	e.connectRule("R6")
+	e.portDiscovery("R7")
 }
 
 // forAllOutputs2 is kept as an alias: forAllOutputs now judges early exits by what happens after them.
